@@ -91,6 +91,8 @@ func oracleFor(op *Sexp, res string) []string {
 		return oracleInternSched(op, res)
 	case "sched":
 		return oracleSched(op, res)
+	case "regtrace":
+		return oracleRegTrace(op, res)
 	case "desccalls":
 		return oracleDescJSON(op, lastDescJSON)
 	case "descjson":
